@@ -15,10 +15,13 @@ PROPERTY = "C10"
 RULE = (
     "data matrices X = mean + A diag(s) B^T (uncentred: X = A diag(s) B^T) with orthonormal A, B from "
     "drawn Givens angles (A orthogonal to the ones vector when centred) and a drawn spectrum with "
-    "s_i/s_{i+1} >= 1.3, s_min/s_max >= 1e-3; n in 3..14, d in 2..14 with the covariance path (d < n) and the "
-    "Gram path (d >= n) an explicit draw; centred / uncentred; PCAVectorModel and PCAModel over "
-    "PointCloud / Image / MaskedImage templates; probe vectors, weight vectors, histories of "
-    "n_active_components = int | fraction, trim_components(int | fraction | None) and rejected settings. "
+    "s_i/s_{i+1} >= 1.3, s_min/s_max >= 1e-3; n in 2..14, d in 2..14 with the covariance path (d < n) and the "
+    "Gram path (d >= n) an explicit draw; centred / uncentred; PCAVectorModel (data matrix or list of vectors) and "
+    "PCAModel (list, or generator + n_samples) over PointCloud / Image / MaskedImage templates; 2-5 probe vectors, "
+    "weight vectors (shorter than, equal to and longer than the active count; plain and eigenvalue-normalised), "
+    "histories of n_active_components = int | fraction, trim_components(int | fraction | None) and rejected settings "
+    "on models built from data, from components (+ max_n_components) or from a covariance / precision matrix; "
+    "integer-typed (uint8/int16/int32/int64) and float32 data sets through every constructor that accepts them. "
     "A model case is non-trivial with >= 2 components; a history is non-trivial when it has >= 2 components "
     "and at least one step reduces the active count; distinct = distinct canonical-JSON digest of the case"
 )
@@ -31,7 +34,14 @@ ASSUMPTIONS = [
     "reference: numpy SVD of the centred (or raw) matrix, eigenvalue k = sigma_k^2/(n-1)",
     "orthonormality and projection-identity tolerances are 1e-9 (x data magnitude) times max(1, spread/1e5), spread = lambda_max/lambda_min <= 1e6 by construction (measured Gram-path error <= 3e-16*spread)",
     "PCAVectorModel.project_out returns a (1, d) array; it is flattened before comparison (shape is not part of the property)",
+    "init_from_covariance_matrix floors eigenvalues at 1e-5 of the largest (pcacov): the covariance / precision constructors are only driven with full-rank n > d data whose eigenvalue spread is <= 1e3 (other draws fall back to init_from_components)",
+    "whitened_components: the docstring does not define the scaling; only 'positive multiple of the matching component' and project_whitened(v) = whitened_components . v are asserted",
+    "inverse_noise_variance: must raise ValueError when the noise variance is exactly 0 and equal 1/noise_variance when it is > 1e-6 (the 'effectively 0' band in between is not asserted)",
+    "integer-typed data with inplace=True may be refused with a TypeError (NumPy refuses to write float results into the integer matrix: centring, Gram-path components); if it is accepted the model must be correct",
+    "float32 data: full-rank data, singular-value spread <= 10 (relative eigenvalues >= 1e-2, far above the single-precision floor 100*eps = 1.2e-5), mean <= 10, rank <= 9, tolerances 1e-4 (measured <= 1.4e-5)",
+    "integer-typed data sets whose float64 reference has an eigenvalue between 1e-13 and 1e-8 of the largest, or a spread above 1e6, are skipped (rank not well defined at the eps = 1e-10 floor)",
 ]
+
 
 IMAGE_SHAPES = [
     (c, h, w)
@@ -77,31 +87,42 @@ def template_case(draw):
 
 
 @st.composite
-def model_case(draw, full_only=False):
+def model_case(draw, full_only=False, cov_friendly=False):
+    """cov_friendly: n > d, full rank, singular-value spread <= 30 where the template allows (d <= 13)."""
     t = draw(template_case())
     d = t["d"]
-    paths = []
+    paths = ["gram"]
     if d <= 13:
         paths.append("cov")
-    if d >= 3:
-        paths.append("gram")
-    path = draw(st.sampled_from(paths))
+    cov_friendly = cov_friendly and d <= 13
+    path = "cov" if cov_friendly else draw(st.sampled_from(paths))
     if path == "cov":
         n = draw(st.integers(d + 1, 14))
+    elif d == 2 or draw(st.integers(0, 11)) == 0:
+        # two samples: the smallest data set a sample variance is defined for
+        n = 2
     else:
         n = draw(st.integers(3, min(d, 14)))
     centre = draw(st.booleans())
     r_full = rp.full_rank(n, d, centre)
-    drop = 0 if full_only else draw(st.sampled_from([0, 0, 0, 0, 0, 1, 2]))
+    drop = 0 if (full_only or cov_friendly) else draw(st.sampled_from([0, 0, 0, 0, 0, 1, 2]))
     r = max(1, r_full - drop)
-    data = draw(rp.data_case(n, d, centre, r=r))
+    data = draw(rp.data_case(n, d, centre, r=r, spread=30.0 if cov_friendly else 1000.0))
+    if t["kind"] == "vector":
+        form = draw(st.sampled_from(["matrix", "matrix", "list"]))
+    else:
+        form = draw(st.sampled_from(["list", "list", "generator"]))
     return {
         "tmpl": t,
         "path": path,
         "data": data,
+        "form": form,
         "inplace": draw(st.booleans()),
         "probe": draw(gen.vec(d, -10, 10)),
-        "w": draw(gen.vec(14, -4, 4)),
+        # the plural (*_vectors) API is called with 2-5 rows: the probe plus 1-4 rows of bulk content from a drawn seed
+        "rows": draw(st.integers(2, 5)),
+        "rows_seed": draw(st.integers(0, 65535)),
+        "w": draw(gen.vec(15, -4, 4)),
     }
 
 
@@ -149,8 +170,14 @@ def op_case(draw):
 
 @st.composite
 def s_history_case(draw):
-    c = draw(model_case())
+    ctor = draw(st.sampled_from(["data", "data", "data", "components", "components", "covariance", "precision"]))
+    c = draw(model_case(cov_friendly=ctor in ("covariance", "precision")))
     c["ops"] = draw(st.lists(op_case(), min_size=1, max_size=8))
+    # how the model the history runs on is obtained: from the data, from the components of a data-built model (optionally
+    # with max_n_components), or from the covariance / precision matrix of the data (full-rank n > d data of eigenvalue
+    # spread <= 1e3 only, else the components form is used)
+    c["ctor"] = ctor
+    c["ctor_k"] = draw(st.sampled_from([None, None, None, None, 1, 2, 3, 5, 9, 16]))
     return c
 
 
@@ -189,21 +216,34 @@ def build_template(t):
 
 
 class Adapter(object):
-    """Uniform vector-level view of PCAVectorModel and of the object-backed PCAModel."""
+    """Uniform vector-level view of PCAVectorModel and of the object-backed PCAModel.
+
+    x may hold any dtype: the samples handed to the constructor keep it (integer / float32 data sets)."""
 
     def __init__(self, case, x, max_n_components=None):
         self.kind = case["tmpl"]["kind"]
         self.centre = case["data"]["centre"]
         self.tmpl = build_template(case["tmpl"])
+        form = case.get("form")
         if self.tmpl is None:
+            data = [row.copy() for row in x] if form == "list" else x.copy()
             self.m = PCAVectorModel(
-                x.copy(), centre=self.centre, max_n_components=max_n_components, inplace=case["inplace"]
+                data, centre=self.centre, max_n_components=max_n_components, inplace=case["inplace"]
             )
         else:
             samples = [self.tmpl.from_vector(row.copy()) for row in x]
-            self.m = PCAModel(
-                samples, centre=self.centre, max_n_components=max_n_components, inplace=case["inplace"]
-            )
+            if form == "generator":
+                self.m = PCAModel(
+                    (s_ for s_ in samples),
+                    centre=self.centre,
+                    n_samples=len(samples),
+                    max_n_components=max_n_components,
+                    inplace=case["inplace"],
+                )
+            else:
+                self.m = PCAModel(
+                    samples, centre=self.centre, max_n_components=max_n_components, inplace=case["inplace"]
+                )
         self.bad_types = []
 
     def _obj(self, v):
@@ -224,10 +264,10 @@ class Adapter(object):
             return np.asarray(self.m.project(v))
         return np.asarray(self.m.project(self._obj(v)))
 
-    def instance(self, w):
+    def instance(self, w, **kw):
         if self.tmpl is None:
-            return np.asarray(self.m.instance(w))
-        return self._vec(self.m.instance(w), "instance")
+            return np.asarray(self.m.instance(w, **kw))
+        return self._vec(self.m.instance(w, **kw), "instance")
 
     def reconstruct(self, v):
         if self.tmpl is None:
@@ -239,6 +279,27 @@ class Adapter(object):
             return np.asarray(self.m.project_out(v)).ravel()
         return self._vec(self.m.project_out(self._obj(v)), "project_out").ravel()
 
+    def component(self, i, **kw):
+        if self.tmpl is None:
+            return np.asarray(self.m.component(i, **kw), dtype=float)
+        return self._vec(self.m.component(i, **kw), "component")
+
+    def project_whitened(self, v):
+        if self.tmpl is None:
+            return np.asarray(self.m.project_whitened(v), dtype=float)
+        return np.asarray(self.m.project_whitened(self._obj(v)), dtype=float)
+
+    def single(self, name):
+        """Vector-level singular entry point matching the plural one (name in project, reconstruct, project_out,
+        instance)."""
+        if self.tmpl is None:
+            return getattr(self.m, name)
+        return getattr(self.m, name + "_vector")
+
+
+def public_mean(m):
+    return np.asarray(m.mean_vector if hasattr(m, "mean_vector") else m.mean())
+
 
 def snapshot(m):
     return {
@@ -249,7 +310,8 @@ def snapshot(m):
         "noise": float(m.noise_variance()),
         "orig": float(m.original_variance()),
         "var": float(m.variance()),
-        "mean": np.array(m._mean, copy=True),
+        "mean": np.array(public_mean(m), copy=True),
+        "n_samples": int(m.n_samples),
     }
 
 
@@ -268,8 +330,10 @@ def snap_equal(a, b):
 # shared oracles
 
 
-def check_queries(ctx, ad, x, case, prefix, k_active, ref_mean, full, cf=1.0):
-    """Item 4 on the active view: project/instance/reconstruct/project_out identities."""
+def check_queries(ctx, ad, x, case, prefix, k_active, ref_mean, full, cf=1.0, exact=1e-12):
+    """Item 4 on the active view: project/instance/reconstruct/project_out identities.
+
+    exact: relative tolerance between two menpo entry points that run the same arithmetic (plural vs singular API)."""
     d = x.shape[1]
     # cf: conditioning factor max(1, spread/1e5) - Gram-path components of the smallest eigenvalue are
     # orthonormal only to ~3e-16 * lambda_max/lambda_min (measured), and every identity below inherits that
@@ -339,6 +403,9 @@ def check_queries(ctx, ad, x, case, prefix, k_active, ref_mean, full, cf=1.0):
                 prefix + ".project_out.decomposition",
                 lambda: describe((rec - ref_mean) + po, probe - ref_mean),
             )
+    check_weight_forms(ctx, ad, case, prefix, k_active, ref_mean, c, sc)
+    check_plural(ctx, ad, case, prefix, k_active, ref_mean, c, sc, exact)
+    check_named_components(ctx, ad, case, prefix, k_active, ref_mean, c, sc, cf)
     if full:
         for i in range(x.shape[0]):
             ri = ad.reconstruct(x[i])
@@ -351,6 +418,162 @@ def check_queries(ctx, ad, x, case, prefix, k_active, ref_mean, full, cf=1.0):
     if ad.bad_types:
         ctx.fail(prefix + ".template_class", "; ".join(sorted(set(ad.bad_types))))
         ad.bad_types = []
+
+
+def check_weight_forms(ctx, ad, case, prefix, k_active, ref_mean, c, sc):
+    """Weight vectors longer than the active count are refused; eigenvalue-normalised weights."""
+    m = ad.m
+    # "all weight vectors": one weight more than there are active components (the docstrings promise ValueError).  On an
+    # untrimmed model with inactive components the surplus weight would address a component that exists but is switched off
+    ctx.event("surplus weight: %s" % ("inactive component exists" if k_active < m.n_components else "no such component"))
+    w_long = np.asarray(case["w"][: k_active + 1], dtype=float)
+    try:
+        got = ad.instance(w_long)
+        ctx.fail(
+            prefix + ".instance.surplus_weights_accepted",
+            "%d weights for %d active components (of %d) gave %r" % (w_long.size, k_active, m.n_components, got),
+        )
+    except ValueError:
+        pass
+    # normalized_weights=True: the weights are in units of standard deviations (sqrt of the eigenvalues)
+    l = np.asarray(m.eigenvalues, dtype=float)
+    if l.shape != (k_active,) or c.shape[0] != k_active:
+        return
+    w = np.array(case["w"][:k_active], dtype=float)
+    w0 = w.copy()
+    inst = ad.instance(w, normalized_weights=True)
+    ctx.expect(
+        np.array_equal(w, w0),
+        prefix + ".normalized_weights.caller_weights_modified",
+        lambda: "weights passed %r, afterwards %r" % (w0, w),
+    )
+    sd = np.sqrt(l)
+    fs = sc * max(1.0, float(sd.max()))
+    want = ref_mean + (w0 * sd).dot(c)
+    if ctx.expect(inst.shape == want.shape, prefix + ".normalized_weights.shape", repr(inst.shape)):
+        ctx.expect(
+            close(inst, want, atol=1e-10 * fs),
+            prefix + ".normalized_weights.instance_value",
+            lambda: describe(inst, want),
+        )
+        back = ad.project(inst)
+        ctx.expect(
+            close(back, w0 * sd, atol=1e-9 * fs),
+            prefix + ".normalized_weights.project_roundtrip",
+            lambda: describe(back, w0 * sd),
+        )
+
+
+def check_plural(ctx, ad, case, prefix, k_active, ref_mean, c, sc, exact):
+    """The *_vectors entry points on 2-5 rows agree row by row with the singular ones (and with the reference)."""
+    m = ad.m
+    n_rows = int(case.get("rows", 0))
+    if n_rows < 2 or c.shape[0] != k_active:
+        return
+    probe = np.asarray(case["probe"], dtype=float)
+    extra = np.random.RandomState(case["rows_seed"]).randint(-10240, 10241, size=(n_rows - 1, probe.size)) / 1024.0
+    p_ = np.vstack([probe[None, :], extra])
+    rows = range(n_rows)
+    w15 = np.asarray(case["w"], dtype=float)
+    w_ = np.array([np.roll(w15, i)[:k_active] for i in rows])
+    ctx.event("plural rows=%d" % n_rows)
+    for name, arg, width in (
+        ("project", p_, k_active),
+        ("reconstruct", p_, p_.shape[1]),
+        ("project_out", p_, p_.shape[1]),
+        ("instance", w_, p_.shape[1]),
+    ):
+        got = np.asarray(getattr(m, name + "_vectors")(arg.copy()))
+        if not ctx.expect(
+            got.shape == (n_rows, width),
+            prefix + ".plural.%s.shape" % name,
+            "%r for %d rows" % (got.shape, n_rows),
+        ):
+            continue
+        one = ad.single(name)
+        for i in rows:
+            gi = np.asarray(one(arg[i].copy())).ravel()
+            if not ctx.expect(
+                close(got[i], gi, rtol=exact, atol=exact * sc),
+                prefix + ".plural.%s.row_differs_from_singular" % name,
+                lambda: "row %d of %d\n%s" % (i, n_rows, describe(got[i], gi)),
+            ):
+                break
+        # independent reference for every row
+        if name == "project":
+            want = (p_ - ref_mean).dot(c.T)
+        elif name == "reconstruct":
+            want = ref_mean + (p_ - ref_mean).dot(c.T).dot(c)
+        elif name == "project_out":
+            want = (p_ - ref_mean) - (p_ - ref_mean).dot(c.T).dot(c)
+        else:
+            want = ref_mean + w_.dot(c)
+        ctx.expect(
+            close(got, want, atol=1e-9 * sc),
+            prefix + ".plural.%s.value" % name,
+            lambda: describe(got, want),
+        )
+
+
+def check_named_components(ctx, ad, case, prefix, k_active, ref_mean, c, sc, cf):
+    """component(i, with_mean, scale), whitened_components, project_whitened: what their docstrings define."""
+    m = ad.m
+    l = np.asarray(m.eigenvalues, dtype=float)
+    if l.shape != (k_active,) or c.shape[0] != k_active:
+        return
+    w15 = case["w"]
+    i = int(round(abs(w15[-1]) * 1024)) % k_active
+    scale = float(w15[-2])
+    sd = float(np.sqrt(l[i]))
+    fs = sc * max(1.0, sd)
+    # scale is in units of standard deviations: scale 1 with the mean = mean plus one standard deviation of component i
+    got = ad.component(i, with_mean=True, scale=scale)
+    want = ref_mean + scale * sd * c[i]
+    ctx.expect(
+        close(got, want, atol=1e-10 * fs),
+        prefix + ".component.with_mean_scale",
+        lambda: "index %d scale %r\n%s" % (i, scale, describe(got, want)),
+    )
+    got1 = ad.component(i)
+    ctx.expect(
+        close(got1, ref_mean + sd * c[i], atol=1e-10 * fs),
+        prefix + ".component.default_is_one_std",
+        lambda: "index %d\n%s" % (i, describe(got1, ref_mean + sd * c[i])),
+    )
+    got0 = ad.component(i, with_mean=False)
+    ctx.expect(
+        close(got0, c[i], rtol=0, atol=0),
+        prefix + ".component.without_mean",
+        lambda: "index %d\n%s" % (i, describe(got0, c[i])),
+    )
+    if ad.tmpl is not None:
+        gv = np.asarray(m.component_vector(i, with_mean=True, scale=scale), dtype=float)
+        ctx.expect(close(gv, got, rtol=0, atol=0), prefix + ".component.object_vs_vector_api", lambda: describe(gv, got))
+    # whitened components: positive multiples of the components; project_whitened is the plain product with them
+    wc = np.asarray(m.whitened_components(), dtype=float)
+    if ctx.expect(wc.shape == c.shape, prefix + ".whitened.shape", "%r vs components %r" % (wc.shape, c.shape)):
+        a = (wc * c).sum(axis=1)
+        ok = (
+            bool(np.all(np.isfinite(wc)))
+            and bool(np.all(a > 0))
+            and bool(np.all(np.abs(wc - a[:, None] * c).max(axis=1) <= 1e-7 * cf * np.abs(a)))
+        )
+        ctx.expect(
+            ok,
+            prefix + ".whitened.not_positive_multiples_of_components",
+            lambda: "factors %r\n%s" % (a, describe(wc, a[:, None] * c)),
+        )
+        probe = np.asarray(case["probe"], dtype=float)
+        pw = ad.project_whitened(probe)
+        want_pw = wc.dot(probe)
+        ctx.expect(
+            close(pw, want_pw, rtol=1e-10, atol=0, scale=max(1e-300, float(np.abs(wc).sum(axis=1).max()) * float(np.abs(probe).max()))),
+            prefix + ".whitened.project_whitened",
+            lambda: describe(pw, want_pw),
+        )
+        if ad.tmpl is not None:
+            pv = np.asarray(m.project_whitened_vector(probe), dtype=float)
+            ctx.expect(close(pv, pw, atol=0, rtol=0), prefix + ".whitened.object_vs_vector_api", lambda: describe(pv, pw))
 
 
 def check_against_reference(ctx, m, k, r, ref_eigs, ref_vt, prefix):
@@ -423,6 +646,20 @@ def check_bookkeeping(ctx, m, a, mm, r, ref_eigs, orig0, prefix):
         prefix + ".noise_variance",
         "noise_variance %.12g, mean of discarded eigenvalues %.12g (%d discarded)" % (noise, want_noise, n_disc),
     )
+    # inverse_noise_variance: 1 / noise_variance, ValueError when there is no noise
+    if noise == 0.0:
+        try:
+            inv = m.inverse_noise_variance()
+            ctx.fail(prefix + ".inverse_noise_variance.zero_noise_accepted", "returned %r" % (inv,))
+        except ValueError:
+            pass
+    elif noise > 1e-6:
+        inv = float(m.inverse_noise_variance())
+        ctx.expect(
+            abs(inv * noise - 1.0) <= 1e-12,
+            prefix + ".inverse_noise_variance",
+            "inverse_noise_variance %.12g, noise_variance %.12g" % (inv, noise),
+        )
     vr = float(m.variance_ratio())
     er = np.asarray(m.eigenvalues_ratio(), dtype=float)
     cr = np.asarray(m.eigenvalues_cumulative_ratio(), dtype=float)
@@ -460,6 +697,9 @@ def c_identities(case, ctx):
     ctx.event("kind=%s" % kind)
     ctx.event("rank=%s" % ("full" if r == rp.full_rank(n, d, centre) else "deficient"))
     ctx.event("n==d" if n == d else ("n<d" if n < d else "n>d"))
+    ctx.event("form=%s" % case["form"])
+    if n == 2:
+        ctx.event("two samples")
     ctx.nontrivial(r >= 2)
     ref_mean, ref_eigs, ref_vt = rp.ref_pca(x, centre)
     sc = max(1.0, float(np.abs(x).max()))
@@ -569,6 +809,57 @@ def _count(k, num):
     return {"np64": np.int64, "np32": np.int32}.get(num, int)(k)
 
 
+def alternative_constructor(ctx, case, m, x, ref_mean, ref_eigs, ref_vt, first):
+    """The model the history continues on: init_from_components / init_from_covariance_matrix of the same data.
+
+    Returns (model, expected active = kept count, snapshot of the untrimmed model) or None."""
+    dc = case["data"]
+    n, d, r, centre = dc["n"], dc["d"], dc["r"], dc["centre"]
+    cls = type(m)
+    ctor, k = case["ctor"], case.get("ctor_k")
+    kappa = float(ref_eigs[0] / ref_eigs[r - 1])
+    if ctor != "components" and not (case["path"] == "cov" and r == d and kappa <= 1e3):
+        ctor = "components"
+    ctx.event("ctor=%s%s" % (ctor, "" if k is None else " + max_n_components"))
+    kw = {} if k is None else {"max_n_components": k}
+    # PCAModel takes the mean as an object of the template's class, PCAVectorModel as a vector
+    mean_arg = m.mean() if hasattr(m, "template_instance") else np.array(m.mean(), copy=True)
+    a = r if k is None else min(k, r)
+    if ctor == "components":
+        m2 = cls.init_from_components(
+            np.array(m.components, copy=True), np.array(m.eigenvalues, copy=True), mean_arg, n, centre, **kw
+        )
+        if k is None:
+            diff = snap_equal(first, snapshot(m2))
+            ctx.expect(
+                diff is None,
+                "history.init_from_components.differs_from_data_model",
+                "%s differs between the data-built model and init_from_components of its parts" % diff,
+            )
+        return m2, a, first
+    xc = x - ref_mean[None, :]
+    cov = xc.T.dot(xc) / (n - 1.0)
+    inverse = ctor == "precision"
+    mat = np.linalg.inv(cov) if inverse else cov
+    pre = "history.init_from_%s" % ctor
+    full = cls.init_from_covariance_matrix(mat.copy(), mean_arg, n, centred=centre, is_inverse=inverse)
+    if not ctx.expect(
+        full.n_components == r and full.n_active_components == r,
+        pre + ".count",
+        "n_components=%r for full-rank data of rank %d (eigenvalue spread %.3g)" % (full.n_components, r, kappa),
+    ):
+        return None
+    check_against_reference(ctx, full, r, r, ref_eigs, ref_vt, pre)
+    ctx.expect(np.array_equal(public_mean(full), first["mean"]), pre + ".mean", lambda: describe(public_mean(full), first["mean"]))
+    ctx.expect(full.n_samples == n, pre + ".n_samples", repr(full.n_samples))
+    first2 = snapshot(full)
+    if k is None:
+        return full, a, first2
+    mean_arg = m.mean() if hasattr(m, "template_instance") else np.array(m.mean(), copy=True)
+    m2 = cls.init_from_covariance_matrix(mat.copy(), mean_arg, n, centred=centre, is_inverse=inverse, **kw)
+    return m2, a, first2
+
+
 def c_history(case, ctx):
     dc = case["data"]
     x = rp.build_data(dc)
@@ -589,6 +880,16 @@ def c_history(case, ctx):
     orig0 = first["orig"]
     a, mm = r, r  # reference state: active count, kept count
     reduced = False
+    ctor = case.get("ctor", "data")
+    if ctor != "data":
+        res = alternative_constructor(ctx, case, m, x, ref_mean, ref_eigs, ref_vt, first)
+        if res is None:
+            return
+        m, a, first = res
+        ad.m = m
+        mm = a
+        orig0 = first["orig"]
+        reduced = a < r
     for step, op in enumerate(case["ops"]):
         kind = op["op"]
         ctx.event("op=%s" % kind)
@@ -661,7 +962,7 @@ def c_history(case, ctx):
             "history.active_view_is_prefix",
             lambda: "step %d (%s): active components/eigenvalues are not the first %d of the original model" % (step, kind, na),
         )
-        ctx.expect(np.array_equal(np.asarray(m._mean), first["mean"]), "history.mean_changed", "")
+        ctx.expect(np.array_equal(public_mean(m), first["mean"]), "history.mean_changed", "")
     ctx.nontrivial(r >= 2 and reduced)
     ctx.event("reduced" if reduced else "not-reduced")
     ctx.event("trimmed" if mm < r else "untrimmed")
@@ -751,6 +1052,170 @@ def c_trim(case, ctx):
 
 
 # ----------------------------------------------------------------------------------------------
+# clause 4: data sets that are not float64 - integer-typed matrices / shapes / images, float32 data
+
+
+INT_AMPLITUDES = {
+    "uint8": {"tiny": (0, 3), "small": (0, 40), "wide": (0, 255)},
+    "int16": {"tiny": (-2, 2), "small": (-40, 40), "wide": (-3000, 3000)},
+    "int32": {"tiny": (-2, 2), "small": (-40, 40), "wide": (-1000000, 1000000)},
+    "int64": {"tiny": (-2, 2), "small": (-40, 40), "wide": (-1000000, 1000000)},
+}
+
+
+@st.composite
+def s_typed_case(draw):
+    t = draw(template_case())
+    d = t["d"]
+    dtype = draw(st.sampled_from(["uint8", "int16", "int32", "int64", "float32"]))
+    centre = draw(st.booleans())
+    if t["kind"] == "vector":
+        form = draw(st.sampled_from(["matrix", "matrix", "list"]))
+    else:
+        form = draw(st.sampled_from(["list", "list", "generator"]))
+    # inplace=True is refused for most integer data (see c_typed): drawn less often there
+    inplace = draw(st.booleans()) if dtype == "float32" else draw(st.sampled_from([False, False, False, True]))
+    case = {"tmpl": t, "dtype": dtype, "form": form, "inplace": inplace}
+    if dtype == "float32":
+        # full rank <= 9 with singular-value spread <= 10: single precision resolves every eigenvalue to ~1e-5
+        if d > 9:
+            n = draw(st.integers(2, 10 if centre else 9))
+        else:
+            n = draw(st.integers(2, 14))
+        data = draw(rp.data_case(n, d, centre, spread=10.0))
+        data["mean"] = draw(gen.vec(d, -10, 10))
+        data["unit_pow"] = 0
+        case["data"] = data
+    else:
+        n = draw(st.integers(2, 10))
+        amp = draw(st.sampled_from(["tiny", "small", "small", "wide", "wide"]))
+        lo, hi = INT_AMPLITUDES[dtype][amp]
+        case["amp"] = amp
+        case["data"] = {"n": n, "d": d, "centre": centre}
+        case["vals"] = draw(st.lists(st.integers(lo, hi), min_size=n * d, max_size=n * d))
+    case["probe"] = draw(gen.vec(d, -10, 10))
+    case["rows"] = draw(st.integers(2, 3))
+    case["rows_seed"] = draw(st.integers(0, 65535))
+    case["w"] = draw(gen.vec(15, -4, 4))
+    return case
+
+
+def s_typed():
+    return s_typed_case()
+
+
+def c_typed(case, ctx):
+    dc = case["data"]
+    n, d, centre = dc["n"], dc["d"], dc["centre"]
+    dtype = case["dtype"]
+    loose = dtype == "float32"
+    if loose:
+        xt = rp.build_data(dc).astype(np.float32)
+    else:
+        xt = np.array(case["vals"], dtype=np.int64).reshape(n, d).astype(dtype)
+    x = xt.astype(np.float64)  # exact
+    kind = case["tmpl"]["kind"]
+    ctx.event("dtype=%s" % dtype)
+    ctx.event("kind=%s form=%s" % (kind, case["form"]))
+    ctx.event("%s centre=%s inplace=%s" % ("float" if loose else "int", centre, case["inplace"]))
+    ctx.event("n==d" if n == d else ("n<d" if n < d else "n>d"))
+    ref_mean, ref_eigs, ref_vt = rp.ref_pca(x, centre)
+    lmax = float(ref_eigs[0])
+    if not lmax > 0:
+        ctx.event("skipped: data without variance")
+        return
+    rel = ref_eigs / lmax
+    r = int((rel > 1e-8).sum())
+    kappa = float(ref_eigs[0] / ref_eigs[r - 1])
+    if bool(np.any((rel > 1e-13) & (rel <= 1e-8))) or kappa > 1e6:
+        ctx.event("skipped: rank not well defined at the eigenvalue floor")
+        return
+    ctx.event("rank=%s" % ("full" if r == rp.full_rank(n, d, centre) else "deficient"))
+    integral_mean = bool(np.all(ref_mean == np.round(ref_mean)))
+    if not loose and centre:
+        ctx.event("column means %s" % ("all integers" if integral_mean else "not integers"))
+    overflow_prone = (
+        not loose and not centre and max(n, d) * float(np.abs(x).max()) ** 2 > float(np.iinfo(dtype).max)
+    )
+    if overflow_prone:
+        ctx.event("uncentred: products of the data exceed its integer type")
+    if loose and centre and n <= d:
+        ctx.event("float32 centred n<=d (null direction of the Gram matrix)")
+    pre = "typed"
+    try:
+        ad = Adapter(case, xt)
+    except TypeError:
+        # inplace=True on integer data: NumPy refuses to write the float results (centred data, scaled Gram-path
+        # components) into the integer matrix - a loud, legitimate rejection
+        if not loose and case["inplace"]:
+            ctx.event("refused: in-place computation on integer data")
+            return
+        raise
+    m = ad.m
+    ctx.event("accepted")
+    ctx.nontrivial(r >= 2 and (loose or not centre or not integral_mean))
+    sc = max(1.0, float(np.abs(x).max()))
+    tol_e = 1e-4 if loose else 1e-6
+    cf = 1e5 if loose else max(1.0, kappa / 1e5)
+
+    c = np.asarray(m.components, dtype=float)
+    l = np.asarray(m.eigenvalues, dtype=float)
+    ok_shape = ctx.expect(
+        c.shape == (r, d) and l.shape == (r,) and m.n_components == r and m.n_active_components == r,
+        pre + ".count_is_rank",
+        "components %r eigenvalues %r n_components %r, rank of the data %d (n=%d d=%d centre=%s)"
+        % (c.shape, l.shape, m.n_components, r, n, d, centre),
+    )
+    ctx.expect(m.n_samples == n and m.n_features == d, pre + ".n_samples_n_features", "%r %r" % (m.n_samples, m.n_features))
+    mv = ad.mean_vec()
+    ctx.expect(
+        close(mv, ref_mean, atol=(1e-6 if loose else 1e-12) * sc),
+        pre + ".mean_is_sample_mean",
+        lambda: describe(mv, ref_mean),
+    )
+    if c.ndim == 2 and c.shape[1] == d and c.shape[0] == l.shape[0] and c.shape[0] > 0:
+        g = c.dot(c.T)
+        ctx.expect(close(g, np.eye(c.shape[0]), atol=1e-9 * cf), pre + ".orthonormal", lambda: describe(g, np.eye(c.shape[0])))
+        ctx.expect(bool(np.all(l > 0)), pre + ".eigenvalues_positive", repr(l))
+        ctx.expect(bool(np.all(np.diff(l) <= tol_e * l[:-1])), pre + ".eigenvalues_descending", repr(l))
+        proj = (x - ref_mean[None, :]).dot(c.T)
+        if centre:
+            pm = proj.sum(axis=0) / n
+            var = ((proj - pm[None, :]) ** 2).sum(axis=0) / (n - 1.0)
+        else:
+            var = (proj**2).sum(axis=0) / (n - 1.0)
+        ctx.expect(
+            bool(np.all(np.abs(l - var) <= tol_e * var + 1e-12 * lmax)),
+            pre + ".eigenvalue_is_sample_variance",
+            lambda: describe(l, var),
+        )
+        cov = proj.T.dot(proj) / (n - 1.0)
+        off = cov - np.diag(np.diag(cov))
+        ctx.expect(
+            float(np.abs(off).max()) <= (1e-4 if loose else 1e-7) * lmax,
+            pre + ".components_decorrelate",
+            lambda: "largest off-diagonal projected covariance %.3e (largest eigenvalue %.3e)" % (float(np.abs(off).max()), lmax),
+        )
+    if ok_shape:
+        want = ref_eigs[:r]
+        ctx.expect(
+            bool(np.all(np.abs(l - want) <= tol_e * want + 1e-12 * lmax)),
+            pre + ".eigenvalues_vs_reference",
+            lambda: describe(l, want),
+        )
+        dp = maxdiff(rp.projector(c), rp.projector(ref_vt[:r]))
+        ctx.expect(dp <= (1e-4 if loose else 1e-7 * cf), pre + ".subspace_vs_reference", lambda: "projector difference %.3e" % dp)
+        total = float(ref_eigs[:r].sum())
+        orig = float(m.original_variance())
+        ctx.expect(
+            abs(orig - total) <= (1e-4 if loose else 1e-7) * total,
+            pre + ".original_variance_vs_reference",
+            "original_variance %.12g, reference %.12g" % (orig, total),
+        )
+        check_queries(ctx, ad, x, case, pre, r, ref_mean, full=True, cf=cf, exact=1e-5 if loose else 1e-12)
+
+
+# ----------------------------------------------------------------------------------------------
 # the Gram path works through its in-place products in blocks of 1000 rows: models with more than 1000 components
 
 
@@ -836,6 +1301,15 @@ CLAUSES = [
         thorough=24000,
         nt_floor=0.3,
         rule="max_n_components=k vs trim_components(k) vs n_active=k;trim() vs fraction forms vs active view; non-trivial: k < rank, >= 2 components",
+    ),
+    Clause(
+        "typed_data",
+        c_typed,
+        s_typed,
+        quick=1000,
+        thorough=20000,
+        nt_floor=0.3,
+        rule="integer-typed (uint8/int16/int32/int64, drawn values) and float32 data through PCAVectorModel (matrix, list) and PCAModel (list, generator) of shapes / images, centred and uncentred, inplace or not: all identities against the float64 reference of the same numbers; non-trivial: model accepted, >= 2 components, and for centred integer data a column mean that is not an integer",
     ),
     Clause("block_boundary", c_block_boundary, enumerate=enum_block_boundary,
            rule="fixed large cases with more than 1000 components on the n <= d path (block size of the in-place products)"),
